@@ -457,6 +457,55 @@ def _r17c(chk, repo) -> None:
     chk.floor("R17c.source_position_reads", 6)
 
 
+def _str_tuple(node) -> Optional[Set[str]]:
+    if isinstance(node, (ast.Tuple, ast.List, ast.Set)) and all(isinstance(x, ast.Constant) and isinstance(x.value, str) for x in node.elts):
+        return {x.value for x in node.elts}
+    return None
+
+
+def _r17d(chk, repo) -> None:
+    """The keyword rule and the datatype rule never own the same token (two policies -> a fix each run)."""
+    CP01 = "src/sqlfluff/rules/capitalisation/CP01.py"
+    CP05 = "src/sqlfluff/rules/capitalisation/CP05.py"
+    c1 = repo.cls(CP01, "Rule_CP01")
+    excl = None
+    for st in c1.body:
+        tg = st.target if isinstance(st, ast.AnnAssign) else (st.targets[0] if isinstance(st, ast.Assign) and len(st.targets) == 1 else None)
+        if isinstance(tg, ast.Name) and tg.id == "_exclude_parent_types" and st.value is not None:
+            excl = _str_tuple(st.value)
+    if excl is None:
+        raise AnalysisError("R17d: Rule_CP01._exclude_parent_types is no longer a literal tuple of type names (anchor refactored)")
+    e1 = repo.fn(CP01, "Rule_CP01._eval")
+    uses = [c for c in calls_in(e1) if last_attr(c) == "is_type" and any(isinstance(a, ast.Starred) and isinstance(a.value, ast.Attribute) and a.value.attr == "_exclude_parent_types" for a in c.args)]
+    if not uses:
+        raise AnalysisError("R17d: Rule_CP01._eval no longer tests the parent against _exclude_parent_types (anchor refactored)")
+    e5 = repo.fn(CP05, "Rule_CP05._eval")
+    containers: Set[str] = set()
+    n = 0
+    for iff in [x for x in walk_local(e5) if isinstance(x, ast.If)]:
+        t = iff.test
+        if not (isinstance(t, ast.Call) and last_attr(t) == "is_type" and isinstance(t.func, ast.Attribute) and isinstance(t.func.value, ast.Attribute) and t.func.value.attr == "segment"):
+            continue
+        loops = [l for b in iff.body for l in ast.walk(b) if isinstance(l, ast.For) and isinstance(l.iter, ast.Attribute) and l.iter.attr == "segments"]
+        if not any(last_attr(c) == "_handle_segment" for l in loops for c in calls_in(l)):
+            continue
+        ts = {a.value for a in t.args if isinstance(a, ast.Constant) and isinstance(a.value, str)}
+        if len(ts) != len(t.args):
+            raise AnalysisError("R17d: CP05's container test is no longer a list of literal type names")
+        containers |= ts
+        n += 1
+    chk.count("R17d.cp05_container_loops", n)
+    if not containers:
+        raise AnalysisError("R17d: Rule_CP05._eval no longer re-cases the raw children of container types (anchor refactored)")
+    missing = sorted(containers - excl)
+    chk.require(
+        not missing, "R17d", c1,
+        f"CP05 re-cases every raw child (keywords included) of {sorted(containers)} under its own policy, but CP01 does not leave the children of {missing} alone (_exclude_parent_types = "
+        f"{sorted(excl)}): a keyword there belongs to both rules, and with different keyword / datatype policies each run of fix flips it again (`TIMESTAMP WITH TIME ZONE` in postgres)",
+        detail="CP01 leaves the children of every container CP05 re-cases",
+    )
+
+
 def run(chk) -> None:
     repo = chk.repo
     chk.rule("R17a", "every exit of the fix pass loop reachable from an adoption of a fixed tree is blocked by a flag that the adoption sets and nothing resets within the pass; loop-limit exhaustion never falls through to the normal return while fixing")
@@ -466,10 +515,12 @@ def run(chk) -> None:
     _r17b(chk, repo, r, marks)
     chk.rule("R17c", "rule and reflow code decides on working positions: reads of a segment's SOURCE line/column (stale once an earlier fix of the same run has moved text) occur only at the reviewed sites")
     _r17c(chk, repo)
+    chk.rule("R17d", "the keyword-capitalisation rule and the datatype-capitalisation rule own disjoint tokens: every container type whose raw children CP05 re-cases is in CP01's _exclude_parent_types (a token owned by two rules with independent policies is changed by every run)")
+    _r17d(chk, repo)
     chk.sample({"rules_loop": f"{LINTER}:{r.rules_loop.lineno}", "pass_loop": f"{LINTER}:{r.pass_loop.lineno}", "working_tree": r.tree, "fix_switch": r.fix_param, "adoptions": [a.lineno for a in r.adoptions]})
     chk.note(
         "Partial claim: decides that the fix loop returns only after a complete pass that adopted nothing (or returns the saved tree). "
-        "NOT decided: that rules do not undo each other; the early-stop safeguards (same fixes twice, text seen before, unparsable result) which by design leave a fix pending; "
+        "NOT decided: that rules do not undo each other (one structural instance is: R17d, token ownership of CP01 vs CP05); the early-stop safeguards (same fixes twice, text seen before, unparsable result) which by design leave a fix pending; "
         "post-phase fixes re-enabling main-phase rules; is_fix_compatible declarations; re-lex/re-parse stability of the written text (C12/C02). "
         "The rollback arm is decided by C18 R18b, adoption validity by C13 R13a, the written text by C30/C11/C26."
     )
@@ -627,6 +678,18 @@ def _respell(span: str, *pairs) -> str:
 
 
 VARIANTS: List[Variant] = [
+    Variant(
+        "cp01-also-owns-datetime-type-keywords", "src/sqlfluff/rules/capitalisation/CP01.py",
+        '        "datetime_type_identifier",\n',
+        "",
+        "R17d", "Rule_CP01", "seeded C17-7",
+    ),
+    Variant(
+        "cp05-recases-children-of-a-new-container", "src/sqlfluff/rules/capitalisation/CP05.py",
+        '            "primitive_type", "datetime_type_identifier", "data_type"\n        ):\n            for seg in',
+        '            "primitive_type", "datetime_type_identifier", "data_type", "array_type"\n        ):\n            for seg in',
+        "R17d", "Rule_CP01", "the other side of the same pair: CP05 starts owning children CP01 still owns",
+    ),
     Variant(
         "lt05-comment-scan-bounded-by-the-source-line", "src/sqlfluff/rules/layout/LT05.py",
         "                    if (\n                        seg.pos_marker.working_line_no\n                        != res.anchor.pos_marker.working_line_no\n                    ):\n",
